@@ -152,6 +152,7 @@ def roundtrip(f1: int, v1: int, f2: int, v2: int, chain: bool) -> bool:
         md = _write_read(m, before, pd, False, "RD")
         if md is None:
             return False
+        label("written to a directory and read back: descriptions equal")
         if chain or TIER != "quick":
             mz = _write_read(m, before, pz, True, "RZ")
             if mz is None:
